@@ -357,6 +357,35 @@ theorem empty_wf (h : κ → Nat) (e : Nat) : WF h (empty e : Tbl κ) := by
   · injection hc with hc; subst hc; simp at hk
   · simp at hc
 
+theorem pow2Above_pow (n : Nat) : ∀ (fuel p : Nat), (∃ a, p = 2 ^ a) → ∃ b, pow2Above n fuel p = 2 ^ b := by
+  intro fuel
+  induction fuel with
+  | zero => intro p hp; simpa [pow2Above] using hp
+  | succ f ih =>
+    intro p hp
+    rw [pow2Above]
+    split
+    · exact hp
+    · obtain ⟨a, rfl⟩ := hp
+      exact ih _ ⟨a + 1, by rw [Nat.pow_succ]⟩
+
+/-- the table allocate_mapping hands to restore_mapping is well-formed, whatever the number of pairs -/
+theorem allocate_wf (h : κ → Nat) (n : Nat) : WF h (allocate n : Tbl κ) := by
+  have hsz : ∃ e, (if n > NV.Gen.C16.mapHashTableSize then pow2Above n 20 1 else NV.Gen.C16.mapHashTableSize) = 2 ^ e := by
+    split
+    · exact pow2Above_pow n 20 1 ⟨0, rfl⟩
+    · exact ⟨3, by decide⟩
+  obtain ⟨e, he⟩ := hsz
+  refine ⟨⟨e, by simp [allocate, he]⟩, ?_⟩
+  intro i c hc k hk
+  have hc' : (List.replicate (2 ^ e) ([] : List κ))[i]? = some c := by
+    have : (allocate n : Tbl κ).buckets = List.replicate (2 ^ e) [] := by simp [allocate, he]
+    rw [this] at hc; exact hc
+  rw [List.getElem?_replicate] at hc'
+  split at hc'
+  · injection hc' with hc'; subst hc'; simp at hk
+  · simp at hc'
+
 /-- **Every pair restore_mapping inserts is found through its key afterwards** — for every hash function, every
     initial table size, every key sequence (duplicates included), however often the table grows on the way. -/
 theorem insertAll_spec (h : κ → Nat) : ∀ (ks : List κ) (t t' : Tbl κ), WF h t → insertAll h t ks = some t' →
@@ -386,6 +415,12 @@ theorem insertAll_spec (h : κ → Nat) : ∀ (ks : List κ) (t t' : Tbl κ), WF
 theorem restore_mapping_all_found (h : κ → Nat) (e : Nat) (ks : List κ) (t : Tbl κ)
     (hi : insertAll h (empty e) ks = some t) : ∀ k ∈ ks, find h t k = true :=
   (insertAll_spec h ks _ t (empty_wf h e) hi).2.1
+
+/-- the same from the table `allocate_mapping(n)` makes, for every `n` -/
+theorem restore_mapping_all_found_alloc (h : κ → Nat) (n : Nat) (ks : List κ) (t : Tbl κ)
+    (hi : insertAll h (allocate n) ks = some t) : WF h t ∧ ∀ k ∈ ks, find h t k = true :=
+  let r := insertAll_spec h ks _ t (allocate_wf h n) hi
+  ⟨r.1, r.2.1⟩
 
 /-! ## non-vacuity: the table does grow in the middle of an insertion sequence, with both values of the new bit -/
 
